@@ -134,8 +134,11 @@ def closed_slice(R: Draw, g: DocGen) -> dict:
     """A closed slice of 1-2 whole nodes of random types."""
     rs = g.rs
     out = []
+    pool = [n for n in rs.node_names if n != rs.top]
     for _ in range(R.int(1, 2)):
-        t = R.choice([n for n in rs.node_names if n != rs.top])
+        t = R.choice(pool)
+        # siblings are either all inline or all block (a mixed fragment cannot be the content of any node)
+        pool = [n for n in pool if rs.inline[n] == rs.inline[t]]
         out.append(P.mk("text", {}, None, [], g.text(R)) if t == "text" else g.node(R, t, 1, 4))
     from .mutate import normalize_children
 
